@@ -192,22 +192,37 @@ def a5(ctx, prog):
     direct = prog.const("MI_PAGES_DIRECT")
     it = Interp(prog)
     f = prog.fn("mi_heap_queue_first_update")
-    # structure of the start-slot search (the loop is modelled, so its shape is checked first)
+    # structure of the start-slot search (the loop is modelled, so its shape is checked first); variables are identified by
+    # their role (what they are initialised from / how they are stepped), never by name
     loops = [l for l in f.all(kind="WhileStmt")]
-    ok = len(loops) == 1
+    idxs = [dd["d"] for _, dd in rl.var_init_from(f, lambda j: rl.is_call(f, j, "_mi_wsize_from_size"))]
+    bins = [dd["d"] for _, dd in rl.var_init_from(f, lambda j: rl.is_call(f, j, "mi_bin"))]
+    ok = len(loops) == 1 and len(idxs) == 1 and len(bins) == 1
+    pm = {d: "$%d" % k for k, d in enumerate(f.pids)}
+    prev_d = None
     if ok:
-        cond = f.nodes[loops[0]]["cond"]
-        cs = rl.conjuncts(f, cond)
-        txt = [rl.canon(f, c).replace(" ", "") for c in cs]
-        ok = len(cs) == 2 and any("mi_bin(prev->block_size)" in t and "==" in t for t in txt) and any("prev" in t and "pages[0]" in t and ("<" in t or ">" in t) for t in txt)
         body = [x for x in f.walk(f.nodes[loops[0]]["body"]) if f.nodes[x]["k"] == "UnaryOperator" and f.nodes[x]["op"] in ("post--", "pre--")]
-        ok = ok and len(body) == 1
+        ok = len(body) == 1 and rl.var_of(f, f.nodes[body[0]]["c"][0]) is not None
+    if ok:
+        prev_d = rl.var_of(f, f.nodes[body[0]]["c"][0])
+        pm[prev_d], pm[idxs[0]], pm[bins[0]] = "#prev", "#idx", "#bin"
+        cs = rl.conjuncts(f, f.nodes[loops[0]]["cond"])
+        same_bin = [c for c in cs if rl.rel(f, c, True, rl.is_local(f, bins[0]), lambda j: rl.canon(f, j, pm) == "mi_bin(#prev->block_size)") == "=="]
+        above0 = [c for c in cs if rl.rel(f, c, True, rl.is_local(f, prev_d), lambda j: rl.canon(f, j, pm).replace(" ", "") == "&$0->pages[0]") == ">"]
+        ok = len(cs) == 2 and len(same_bin) == 1 and len(above0) == 1
     ctx.check(R, ok, f.where(), "start-slot search: while (bin == mi_bin(prev->block_size) && prev > &heap->pages[0]) prev--", key="C16.A5:loop")
-    st = [dd for _, dd in rl.local_decl(f, lambda dd: dd["n"] == "start")]
-    sdefs = [rl.canon(f, rhs).replace(" ", "") for a, rhs, op in f.var_defs(st[0]["d"]) if rhs is not None] if st else []
-    ctx.check(R, sorted(sdefs) == sorted(["0", "(1+_mi_wsize_from_size(prev->block_size))", "idx"]), f.where(), "start ∈ {0, 1 + wsize(prev->block_size), idx}: %s" % sdefs, key="C16.A5:start")
     fl = [l for l in f.all(kind="ForStmt")]
-    okf = len(fl) == 1 and rl.cmp_parts(f, f.nodes[fl[0]]["cond"]) and rl.cmp_parts(f, f.nodes[fl[0]]["cond"])[0] == "<="
+    okf = len(fl) == 1 and len(idxs) == 1
+    sdefs = []
+    if okf:
+        init = f.nodes[fl[0]].get("init")
+        ivs = [dd for dd in f.nodes[init]["decls"]] if init is not None and f.nodes[init]["k"] == "DeclStmt" else []
+        okf = len(ivs) == 1 and "init" in ivs[0] and rl.var_of(f, ivs[0]["init"]) is not None and \
+            rl.rel(f, f.nodes[fl[0]]["cond"], True, rl.is_local(f, ivs[0]["d"]), rl.is_local(f, idxs[0])) == "<="
+        if okf:
+            sd = rl.var_of(f, ivs[0]["init"])
+            sdefs = [rl.canon(f, rhs, pm).replace(" ", "") for a, rhs, op in f.var_defs(sd) if rhs is not None]
+    ctx.check(R, sorted(sdefs) == sorted(["0", "(1+_mi_wsize_from_size(#prev->block_size))", "#idx"]), f.where(), "start ∈ {0, 1 + wsize(prev->block_size), idx}: %s" % sdefs, key="C16.A5:start")
     ctx.check(R, bool(okf), f.where(), "the fill loop covers start..idx inclusive", key="C16.A5:fill")
     U = used_bins(prog, it, T, small)
     wbin = {}
@@ -393,11 +408,14 @@ def a9(ctx, prog):
         else:
             ctx.fail(R, f.where(a), "unrecognised adjust definition %s" % f.text(j), key="C16.A9:other")
     rets = [r for r in f.all(kind="ReturnStmt")]
-    ok = len(rets) == 1 and rl.canon(f, f.nodes[rets[0]]["val"]).replace(" ", "") in ("($1-adjust)",)
+    pm9 = {d: "$%d" % k for k, d in enumerate(f.pids)}
+    pm9[ad] = "#adjust"
+    ok = len(rets) == 1 and rl.canon(f, f.nodes[rets[0]]["val"], pm9).replace(" ", "") in ("($1-#adjust)",)
     ctx.check(R, ok, f.where(), "returns p − adjust", key="C16.A9:ret")
     g = prog.fn("mi_page_init")
     sts = [(a, rhs) for a, l, rhs, op in g.field_stores("block_size_shift")]
-    bs = next((g.param_id(k) for k, p in enumerate(g.d["params"]) if p["n"] == "block_size"), None)
+    # the block-size parameter by role: the one stored into page->block_size
+    bs = next((rl.var_of(g, rhs) for a, l, rhs, op in g.field_stores("block_size") if rhs is not None and rl.var_of(g, rhs) in g.pids), None)
     ok = len(sts) == 2
     for a, rhs in sts:
         if g.cv(rhs) == 0:
